@@ -253,7 +253,7 @@ def cut(stream, sizes):
 class C12(Property):
     PID = 'C12'
     QUICK_BUDGET_S = 34
-    THOROUGH_BUDGET_S = 600
+    THOROUGH_BUDGET_S = 540
     RULE = ('a case is one whole scripted session. rx: constructor recvsize/maxsize, a network script (chunks and '
             'socket.timeout events, then EOF) and a sequence of recv / peek / recv_size / recv_until / recv_close '
             'calls (each retried after Timeout when retry=1), every attempt recording result + getrecvbuffer(); '
